@@ -466,6 +466,15 @@ class Facts:
                                     for x in ast.walk(m.args[0]))):
                         return f".draw .derivedNp {at} {gd}"
             return f".draw .space {at} {gd}"
+        if q in ("random.getstate", "random.setstate", "numpy.random.get_state", "numpy.random.set_state"):
+            # F-11 repair: not a draw - the STATE of a process-wide generator is read (to be kept by the environment) or put back.
+            # `inWrapper`: the call is inside the decorator `own_generator_state` of session/environment.py, whose shape (restore before the
+            # operation, save after it, same key) is regenerated as Gen/OwnGeneratorState.lean
+            fam = "py" if q.startswith("random.") else "np"
+            restore = q.split(".")[-1] in ("setstate", "set_state")
+            inw = self.fi.rel == "session/environment.py" and any(
+                isinstance(p, ast.FunctionDef) and p.name == "own_generator_state" for p in self._chain(n))
+            return f".stateAccess .{fam} {_lb(restore)} {at} {_lb(inw)}"
         if q.startswith("random."):
             return f".draw .py {at} {gd}"
         if q.endswith("random.default_rng"):
@@ -1215,6 +1224,9 @@ def emit() -> str:
          "  | draw (fam : Fam) (atCall : Bool) (guarded : Bool)\n"
          "  /-- a seeding call of family `fam` with the given argument text -/\n"
          "  | seedCall (fam : Fam) (arg : String) (atCall : Bool)\n"
+         "  /-- `getstate` / `setstate` of a process-wide generator (`restore` = the state is put back); `inWrapper` = inside the decorator\n"
+         "  `own_generator_state` of session/environment.py -/\n"
+         "  | stateAccess (fam : Fam) (restore : Bool) (atCall : Bool) (inWrapper : Bool)\n"
          "  /-- `secrets.token_urlsafe(n)` with a constant `n` -/\n"
          "  | constSecret (nbytes : Nat)\n"
          "  /-- every place the reading's value flows to (syntactic forward data-flow): path / show / log -/\n"
